@@ -15,8 +15,8 @@ ID = "C09"
 
 def plan(tier: str) -> dict:
     return {
-        "runs": 5000 if tier == "quick" else 300000,
-        "budget": 70 if tier == "quick" else 900,
+        "runs": 8000 if tier == "quick" else 300000,
+        "budget": 150 if tier == "quick" else 900,
         "cases": [],
         "chunk": 30,
         "rule": "One HTTP/2 connection with 1..4 concurrent streams whose response bytes are a function of (stream, "
